@@ -37,9 +37,10 @@ func (g *FuncGen) check(st *State, kind, goal, desc string, pos token.Pos) {
 	if goal == "true" {
 		return
 	}
-	g.oblige(kind, "", st.reach, goal, desc, pos)
+	o := g.oblige(kind, "", st.reach, goal, desc, pos)
 	nr := g.newReach(st.reach)
 	g.assert(fmt.Sprintf("(=> %s %s)", nr, goal))
+	o.AssumeIdx = len(g.asserts) // 1-based index of the assumption that this check holds
 	st.reach = nr
 }
 
